@@ -199,11 +199,14 @@ def r02d(ctx):
         for p in returning(paths(repo, fwd)):
             if any(e.kind == 'loop0' for e in p.events):
                 continue
-            apps = [e for e in p.calls() if method_call(e.data[0]) and
-                    method_call(e.data[0])[1] == 'append']
+            # the summed terms: appended in a loop, or a comprehension handed to torch.stack
+            cands = [method_call(e.data[0])[2][0] for e in p.calls()
+                     if method_call(e.data[0]) and method_call(e.data[0])[1] == 'append']
+            for x in subterms(p.retval):
+                if x[0] == 'comp' and len(x[2]) == 1:
+                    cands.append(x[2][0])
             ok = False
-            for e in apps:
-                v = method_call(e.data[0])[2][0]
+            for v in cands:
                 # theta_alpha[i] (possibly viewed) * quantizer_i(input) with (i, quantizer_i)
                 # from enumerate(self.qtz_funcs)
                 en = [x for x in subterms(v) if x[0] == 'elem' and
